@@ -5,7 +5,7 @@ C09 -- every tract is well-formed and traceable to its source.
 import ast
 
 from .. import AnalysisError, flow
-from ..srcmodel import walk_local, norm, dotted, guards
+from ..srcmodel import walk_local, norm, dotted, guards, literals
 from . import common, forward
 from . import c12
 
@@ -95,6 +95,7 @@ def check(ctx):
     ctx.attempt(_hand_down)
     ctx.attempt(forward.check_all, module_suffixes=('plssdesc.plss_parse', 'plssdesc.plssdesc', 'tract.tract', 'trs.trs'))
     ctx.attempt(emitted_trs_accepted)
+    ctx.attempt(common.clause_purity, [f for f in ctx.repo.funcs.values() if f.module.name.endswith(('trs.trs','tract.tract'))])
 
 
 def _placeholders(ctx):
@@ -204,7 +205,24 @@ def _hand_down(ctx):
     ti = ctx.repo.func('Tract.__init__')
     t = [norm(s) for s in walk_local(ti.node) if isinstance(s, ast.Assign)]
     for a in ('orig_index', 'source', 'orig_desc', 'desc'):
-        ctx.shape(f"self.{a} = {a}" in t, 'DEFUSE', f"Tract.__init__ stores {a}")
+        stores = [x for x in walk_local(ti.node) if isinstance(x, ast.Assign) and norm(x.targets[0]) == f"self.{a}"]
+        construct = f"Tract.__init__ stores {a} as given"
+        if not stores:
+            ctx.undecided('DEFUSE', construct, f"no `self.{a} = ...` found")
+            continue
+        v = stores[-1].value
+        filtered = None
+        if isinstance(v, ast.IfExp) and any(txt == a for _e, txt, _p in literals([(v.test, True)])) \
+                and any(isinstance(b, ast.Constant) for b in (v.body, v.orelse)):
+            filtered = v
+        if isinstance(v, ast.BoolOp) and norm(v.values[0]) == a and isinstance(v.values[-1], ast.Constant):
+            filtered = v
+        prov = flow.prov_params(flow.provenance(ti.node, v))
+        ctx.tri(norm(v) == a, filtered is not None or a not in prov, 'DEFUSE', construct,
+                detail_bad=(f"`{norm(stores[-1])}` replaces a falsy {a} (0, '', (), False) by a constant: the tract no longer "
+                            f"carries what its parent was given" if filtered is not None
+                            else f"`{norm(stores[-1])}` does not derive from the `{a}` argument"),
+                key=f"DEFUSE|Tract.__init__|{a}|{'filtered' if filtered is not None else 'lost'}", where=common.loc(ti, stores[-1]))
     ctx.shape('self.trs = trs' in t, 'DEFUSE', 'Tract.__init__ routes trs through the setter')
 
 
